@@ -182,6 +182,30 @@ def real_pairs(job):
             c2, t2 = copy.deepcopy(c), copy.deepcopy(t)
             t2["biofuel"].kcals[m] += 0.05 * need
             pairs.append(dict(kind="more_charge", what="biofuel[%d]+0.05 need" % m, z0=z0, z1=z_of(c2, t2)))
+    # a growing charge in one month, each step against the one before (up to a charge nothing could meet, which must be refused)
+    zprev, prev = z0, "no extra charge"
+    for mult in (0.05, 1.0, 20.0, 400.0):
+        for key in ("feed", "biofuel"):
+            c2, t2 = copy.deepcopy(c), copy.deepcopy(t)
+            t2[key].kcals[0] += mult * need
+            z1 = z_of(c2, t2)
+            if key == "feed":
+                pairs.append(dict(kind="more_charge", what="feed[0]+%g need (after %s)" % (mult, prev), z0=zprev, z1=z1))
+                if z1 is None:
+                    break
+                zprev, prev = z1, "+%g need" % mult
+            else:
+                pairs.append(dict(kind="more_charge", what="biofuel[0]+%g need" % mult, z0=z0, z1=z1))
+        else:
+            continue
+        break
+    # a cap's right-hand side alone (the running slaughter total without the monthly series): relaxing it never hurts
+    if c["ADD_MEAT"] and c["STORE_FOOD_BETWEEN_YEARS"]:
+        for m in sorted(set(months + [N - 1])):
+            c2, t2 = copy.deepcopy(c), copy.deepcopy(t)
+            t2["max_consumed_culled_kcals_each_month"] = np.array(t["max_consumed_culled_kcals_each_month"], dtype=float)
+            t2["max_consumed_culled_kcals_each_month"][m] += min(bump, float(t["each_month_meat_slaughtered"].kcals[0]) * 0.5 + 1e-9)
+            pairs.append(dict(kind="more_supply", what="running_slaughter_total[%s]+" % ("last" if m == N - 1 else m), z0=z0, z1=z_of(c2, t2)))
     for k in (2.0, 0.5):
         c2, t2 = scaled(c, t, k)
         pairs.append(dict(kind="scale", what="x%g" % k, z0=z0, z1=z_of(c2, t2)))
